@@ -1,7 +1,7 @@
 """Explanation machinery for the known f-string findings (C10).
 
 neutralise(src) rewrites every f-string literal of `src`, removing exactly the features that the
-listed known findings are about (doubled braces at token level, whitespace after a conversion, non-ASCII
+listed known findings are about (doubled braces at token level, non-ASCII
 characters) and returns the rewritten text plus the set of families it touched.  A difference
 between the implementation and CPython counts as *explained* only if the rewritten text -- the
 same literal without those features -- shows no difference at all; otherwise it stays a
@@ -67,9 +67,7 @@ def _scan_field(s: str, i: int, out: list, fam: set, raw: bool = False) -> int:
         k = j
         while k < len(s) and s[k] not in ":}":
             k += 1
-        out.append(s[j:k].rstrip())
-        if s[j:k] != s[j:k].rstrip():
-            fam.add("conversion_space")
+        out.append(s[j:k])
         j = k
     if j < len(s) and s[j] == ":":
         # format spec up to the matching '}'
@@ -173,5 +171,4 @@ def neutralise(src: str) -> tuple[str, set]:
 FAMILY_FINDING = {
     "doubled_brace": "K-C10-doubled-brace-tokens",
     "nonascii": "K-C10-nonascii-columns",
-    "conversion_space": "K-C10-conversion-space",
 }
